@@ -63,6 +63,29 @@ func (c10) Run(c *mon.Ctx, i int) {
 		n0 := len(d.B)
 		d.B = append(d.B, tail...)
 		ops = []gen.Op{{Kind: "write", N: n0}, {Kind: "flush"}, {Kind: "write", N: len(tail)}, {Kind: "close"}}
+	case i%12 == 11:
+		// R one-token bytes (plus a short run), then Flush: the number of tokens
+		// pending at the Flush sweeps across the token buffer's capacity (32767)
+		caps := []int{}
+		for v := 32740; v <= 32775; v++ {
+			caps = append(caps, v)
+		}
+		for v := 65500; v <= 65545; v++ {
+			caps = append(caps, v)
+		}
+		R := caps[(i/12)%len(caps)]
+		if s.Level == -2 || !s.Accelerated() {
+			s.Level = []int{1, 2, -1}[r.Intn(3)]
+		}
+		b := r.Bytes(R)
+		z := r.Pick(0, 0, 271, 300, 65794-R)
+		if z < 0 {
+			z = 0
+		}
+		b = append(b, make([]byte, z)...)
+		tail := gen.Make(r, "text", 300).B
+		d = gen.Data{Desc: fmt.Sprintf("uniform%d+zeros%d", R, z), B: append(b, tail...)}
+		ops = []gen.Op{{Kind: "write", N: len(b)}, {Kind: "flush"}, {Kind: "write", N: len(tail)}, {Kind: "close"}}
 	case sel == 0:
 		// flush after every byte of a small input
 		d = gen.Make(r, gen.Families[r.Intn(8)], r.Range(0, 40))
